@@ -558,7 +558,7 @@ Definition load (t : tree) : result font lerr :=
 
 Definition guide_ok (g : guide) : Prop :=
   (forall l, g_lib g = Some l -> wf_dict l /\ exists id, g_id g = Some id) /\
-  (forall id, g_id g = Some id -> wf_key S id /\ id <> []).
+  (forall id, g_id g = Some id -> wf_key S id).
 Fixpoint some_ids (l : list (option str)) : list str :=
   match l with [] => [] | Some x :: r => x :: some_ids r | None :: r => some_ids r end.
 
@@ -810,5 +810,35 @@ Record sig_ok : Prop := {
   set_name_same : forall g, set_name S (glyph_name S g) g = g;
   set_name_eq : forall n a b, peq (P_glif S) a b -> peq (P_glif S) (set_name S n a) (set_name S n b);
   name_of_set : forall n g, glyph_name S (set_name S n g) = n }.
+
+
+(** * C04: the reader only produces what the writer represents *)
+
+Definition dflt_list {A} (o : option (list A)) : list A := match o with Some l => l | None => [] end.
+
+(** per-part closedness (to be discharged by the part owners: [parse_glif] yields valid glyphs,
+    [FontInfo::validate] yields valid info with valid, distinct guideline identifiers, the plist
+    reader yields representable values) *)
+Record sig_closed : Prop := {
+  cl_info : part_closed (P_info S); cl_lib : part_closed (P_lib S);
+  cl_groups : part_closed (P_groups S); cl_kerning : part_closed (P_kerning S);
+  cl_lc : part_closed (P_lc S); cl_contents : part_closed (P_contents S);
+  cl_li : part_closed (P_li S); cl_glif : part_closed (P_glif S);
+  meta_wf_norad : forall mi, wf (P_meta S) {| m_creator := Some NORAD_CREATOR; m_version := 3; m_minor := mi |};
+  info_ids_wf : forall si, wf (P_info S) si -> forall g, In g (dflt_list (snd si)) ->
+                forall id, snd g = Some id -> wf_key S id;
+  info_ok_nodup : forall i : info, info_ok S i = true -> NoDup (some_ids (map g_id (guides_of i)));
+  wf_set_name : forall n g, wf (P_glif S) g -> wf (P_glif S) (set_name S n g) }.
+
+(** on disk: layercontents.plist names every directory once, every contents.plist names every
+    glif file once *)
+Definition disk_wf (t : tree) : Prop :=
+  (forall c lc, t_lcontents t = Some c -> dec (P_lc S) c = Some lc -> NoDup (map snd lc)) /\
+  (forall d ld c cl, In (d, ld) (t_dirs t) -> ld_contents ld = Some c -> dec (P_contents S) c = Some cl ->
+                     NoDup (map snd cl)).
+
+(** known class of C04: [public.objectLibs] in lib.plist and no fontinfo.plist to consume it *)
+Definition orphan_object_libs (t : tree) : Prop :=
+  t_info t = None /\ exists c d, t_lib t = Some c /\ dec (P_lib S) c = Some d /\ d_get S OBJ d <> None.
 
 End Model.
